@@ -240,4 +240,17 @@ META = {
         "level_note": "trusted: per-row run ids in the values; feature tags in violation signatures for mechanism-keyed known findings",
         "technique": "differential runtime oracle (superrun vs ordered subrun concatenation) + per-chunk bookkeeping monitor on yielded and stored chunks",
     },
+    "C16": {
+        "level_text": (
+            "Random stored layouts are transformed with the real tools - Context.copy_to_frontend (compressor, "
+            "rechunk, size), the stand-alone rechunker (4 compressors x target sizes x serial / thread / process "
+            "x in place / new location), rechunk_on_load under both processors and with a worker pool, and "
+            "per-chunk builds for every grouping of up to 5 dependency chunks followed by "
+            "merge_per_chunk_storage - and the result is loaded by a fresh context: rows must be bit-identical "
+            "to the source, chunks contiguous and law-abiding, the new metadata consistent with the new files "
+            "(metadata oracle of C03), and the source tree byte-identical (content hash) unless replaced."
+        ),
+        "level_note": "trusted: metadata oracle in vf/mon/storagemd.py; rechunker driven with its default progress bar",
+        "technique": "differential runtime oracle (transformed vs source data) + metadata/file consistency monitor + source-tree hash",
+    },
 }
